@@ -206,4 +206,275 @@ theorem pop_some {q q' : PQ} {e : Entry} (h : q.pop = some (e, q')) (ho : HeapOr
       · exact (pop0_entries hne h1).trans ((siftDown_entries _ _).symm.cons _)
       · rw [siftDown_size]; omega
 
+/-! ### changeScore -/
+
+def PQ.set0 (q : PQ) (p : Nat) (s : Score) (h : p < q.heap.size) : PQ :=
+  { q with heap := q.heap.set p ⟨s, (q.heap[p]'h).item⟩ h }
+
+theorem set0_posOK {q : PQ} {p : Nat} {s : Score} (h : p < q.heap.size) (hp : PosOK q) :
+    PosOK (q.set0 p s h) := by
+  rw [posOK_iff_map] at hp ⊢
+  intro x idx
+  show posGet q.pos x = some idx ↔ _
+  rw [hp]
+  simp only [PQ.set0, Array.getElem?_set]
+  by_cases hi : p = idx
+  · subst hi; simp [h]
+  · simp [hi]
+
+theorem set0_ltAt_ne {q : PQ} {p : Nat} {s : Score} (h : p < q.heap.size) {a b : Nat}
+    (ha : a ≠ p) (hb : b ≠ p) : ltAt (q.set0 p s h).heap a b = ltAt q.heap a b := by
+  apply ltAt_congr <;> simp only [PQ.set0, Array.getElem?_set] <;> rw [if_neg (by omega)]
+
+theorem set0_ltAt_left {q : PQ} {p : Nat} {s : Score} (h : p < q.heap.size) {b : Nat}
+    (hb : b ≠ p) (hbs : b < q.heap.size) :
+    ltAt (q.set0 p s h).heap p b = scoreLower s q.heap[b].score := by
+  rw [ltAt_eq (by simpa [PQ.set0] using h) (by simpa [PQ.set0] using hbs)]
+  simp only [PQ.set0]
+  rw [Array.getElem_set_self, Array.getElem_set_ne _ _ (by omega)]
+
+theorem set0_ltAt_right {q : PQ} {p : Nat} {s : Score} (h : p < q.heap.size) {a : Nat}
+    (ha : a ≠ p) (has : a < q.heap.size) :
+    ltAt (q.set0 p s h).heap a p = scoreLower q.heap[a].score s := by
+  rw [ltAt_eq (by simpa [PQ.set0] using has) (by simpa [PQ.set0] using h)]
+  simp only [PQ.set0]
+  rw [Array.getElem_set_self, Array.getElem_set_ne _ _ (by omega)]
+
+theorem set0_upInv {q : PQ} {p : Nat} {s : Score} (h : p < q.heap.size) (ho : HeapOrd q.heap)
+    (hup : scoreLower q.heap[p].score s = true) : UpInv (q.set0 p s h).heap p := by
+  constructor
+  · intro j hj hjp
+    by_cases hjs : j < q.heap.size
+    · by_cases hpj : parent j = p
+      · rw [hpj, set0_ltAt_left h hjp hjs]
+        have := ho j hj
+        rw [hpj, ltAt_eq h hjs] at this
+        cases hc : scoreLower s q.heap[j].score with
+        | false => rfl
+        | true => rw [scoreLower_trans _ _ _ hup hc] at this; exact this
+      · rw [set0_ltAt_ne h hpj hjp]; exact ho j hj
+    · exact ltAt_oob_right (by simp [PQ.set0]; omega)
+  · intro j hp0 hj hjp
+    have h1 := parent_lt hp0
+    have h2 := parent_lt hj
+    rw [set0_ltAt_ne h (by omega) (by omega)]
+    have a := ho p hp0
+    have b := ho j hj
+    rw [hjp] at b
+    exact ltAt_negtrans h a b
+
+theorem set0_downInv {q : PQ} {p : Nat} {s : Score} (h : p < q.heap.size) (ho : HeapOrd q.heap)
+    (hdn : scoreLower q.heap[p].score s = false) : DownInv (q.set0 p s h).heap p := by
+  constructor
+  · intro j hj hjp
+    by_cases hjs : j < q.heap.size
+    · have h2 := parent_lt hj
+      by_cases hpj : j = p
+      · subst hpj
+        rw [set0_ltAt_right h (by omega) (by omega)]
+        have := ho j hj
+        rw [ltAt_eq (by omega) h] at this
+        exact scoreLower_negtrans _ _ _ this hdn
+      · rw [set0_ltAt_ne h hjp hpj]; exact ho j hj
+    · exact ltAt_oob_right (by simp [PQ.set0]; omega)
+  · intro j hp0 hj hjp
+    have h1 := parent_lt hp0
+    have h2 := parent_lt hj
+    rw [set0_ltAt_ne h (by omega) (by omega)]
+    have a := ho p hp0
+    have b := ho j hj
+    rw [hjp] at b
+    exact ltAt_negtrans h a b
+
+theorem set0_entries {q : PQ} {p : Nat} {s : Score} (h : p < q.heap.size) :
+    ∃ R, q.entries.Perm ((q.heap[p].item, q.heap[p].score) :: R) ∧
+      (q.set0 p s h).entries.Perm ((q.heap[p].item, s) :: R) := by
+  refine ⟨(q.heap.toList.take p ++ q.heap.toList.drop (p + 1)).map (fun e => (e.item, e.score)), ?_, ?_⟩
+  · have : q.heap.toList = q.heap.toList.take p ++ q.heap[p] :: q.heap.toList.drop (p + 1) := by
+      have := List.take_append_drop p q.heap.toList
+      rw [List.drop_eq_getElem_cons (by simpa using h)] at this
+      simpa using this.symm
+    have hp := (List.perm_middle (a := q.heap[p]) (l₁ := q.heap.toList.take p)
+      (l₂ := q.heap.toList.drop (p + 1))).map (fun e : Entry => (e.item, e.score))
+    rw [← this] at hp
+    simpa [PQ.entries] using hp
+  · have : (q.set0 p s h).heap.toList =
+        q.heap.toList.take p ++ ⟨s, q.heap[p].item⟩ :: q.heap.toList.drop (p + 1) := by
+      simp [PQ.set0, Array.toList_set, List.set_eq_take_append_cons_drop, h]
+    have hp := (List.perm_middle (a := (⟨s, q.heap[p].item⟩ : Entry)) (l₁ := q.heap.toList.take p)
+      (l₂ := q.heap.toList.drop (p + 1))).map (fun e : Entry => (e.item, e.score))
+    rw [← this] at hp
+    simpa [PQ.entries] using hp
+
+theorem changeScore_none {q : PQ} {item : Nat} {s : Score} (hp : PosOK q)
+    (h : q.changeScore item s = none) : posGet q.pos item = none := by
+  unfold PQ.changeScore at h
+  split at h
+  · assumption
+  · rename_i p hpos
+    split at h
+    · dsimp only at h
+      split at h <;> simp at h
+    · rename_i hlt
+      obtain ⟨e, he, _⟩ := (hp _ _).mp hpos
+      exact absurd (Array.getElem?_eq_some_iff.mp he).1 hlt
+
+theorem changeScore_some {q q' : PQ} {item : Nat} {s : Score} (ho : HeapOrd q.heap) (hp : PosOK q)
+    (h : q.changeScore item s = some q') :
+    HeapOrd q'.heap ∧ PosOK q' ∧ q'.heap.size = q.heap.size ∧
+      ∃ old R, q.entries.Perm ((item, old) :: R) ∧ q'.entries.Perm ((item, s) :: R) := by
+  unfold PQ.changeScore at h
+  split at h
+  · simp at h
+  · rename_i p hpos
+    split at h
+    · rename_i hlt
+      obtain ⟨e, he, hitem⟩ := (hp _ _).mp hpos
+      obtain ⟨_, rfl⟩ := Array.getElem?_eq_some_iff.mp he
+      obtain ⟨R, hR1, hR2⟩ := set0_entries (s := s) hlt
+      rw [hitem] at hR1 hR2
+      dsimp only at h
+      split at h
+      · rename_i hup
+        simp only [Option.some.injEq] at h
+        subst h
+        change HeapOrd ((q.set0 p s hlt).siftUp p).heap ∧ PosOK ((q.set0 p s hlt).siftUp p) ∧
+          ((q.set0 p s hlt).siftUp p).heap.size = _ ∧ ∃ old R, _ ∧ ((q.set0 p s hlt).siftUp p).entries.Perm _
+        have hsz : (q.set0 p s hlt).heap.size = q.heap.size := by simp [PQ.set0]
+        refine ⟨siftUp_heapOrd _ _ (by omega) (set0_upInv hlt ho hup),
+          siftUp_posOK _ _ (by omega) (set0_posOK hlt hp), by rw [siftUp_size, hsz], _, R, hR1, ?_⟩
+        exact (siftUp_entries _ _).trans hR2
+      · rename_i hdn
+        simp only [Option.some.injEq] at h
+        subst h
+        change HeapOrd ((q.set0 p s hlt).siftDown p).heap ∧ PosOK ((q.set0 p s hlt).siftDown p) ∧
+          ((q.set0 p s hlt).siftDown p).heap.size = _ ∧ ∃ old R, _ ∧ ((q.set0 p s hlt).siftDown p).entries.Perm _
+        have hsz : (q.set0 p s hlt).heap.size = q.heap.size := by simp [PQ.set0]
+        refine ⟨siftDown_heapOrd _ _ (set0_downInv hlt ho (by simpa using hdn)),
+          siftDown_posOK _ _ (by omega) (set0_posOK hlt hp), by rw [siftDown_size, hsz], _, R, hR1, ?_⟩
+        exact (siftDown_entries _ _).trans hR2
+    · simp at h
+
+
+/-! ### keys, lookups -/
+
+theorem mem_keys_iff {q : PQ} (hp : PosOK q) (item : Nat) :
+    item ∈ q.entries.keys ↔ ∃ idx, posGet q.pos item = some idx := by
+  simp only [AMap.keys, PQ.entries, List.map_map, List.mem_map, Array.mem_toList_iff, Function.comp]
+  constructor
+  · intro ⟨e, he, hei⟩
+    obtain ⟨j, hj, rfl⟩ := Array.mem_iff_getElem.mp he
+    exact ⟨j, (hp _ _).mpr ⟨q.heap[j], by simp, hei⟩⟩
+  · intro ⟨idx, h⟩
+    obtain ⟨e, he, hei⟩ := (hp _ _).mp h
+    exact ⟨e, Array.mem_of_getElem? he, hei⟩
+
+theorem not_mem_keys_iff {q : PQ} (hp : PosOK q) (item : Nat) :
+    item ∉ q.entries.keys ↔ posGet q.pos item = none := by
+  rw [mem_keys_iff hp]
+  cases posGet q.pos item <;> simp
+
+theorem getScore_some {q : PQ} {item : Nat} {s : Score} (hp : PosOK q) (h : q.getScore item = some s) :
+    (item, s) ∈ q.entries := by
+  unfold PQ.getScore at h
+  split at h
+  · simp at h
+  · rename_i p hpos
+    obtain ⟨e, he, hei⟩ := (hp _ _).mp hpos
+    rw [he] at h
+    simp only [Option.map_some, Option.some.injEq] at h
+    simp only [PQ.entries, List.mem_map, Array.mem_toList_iff]
+    exact ⟨e, Array.mem_of_getElem? he, by rw [hei, h]⟩
+
+theorem getScore_none {q : PQ} {item : Nat} (hp : PosOK q) (h : q.getScore item = none) :
+    item ∉ q.entries.keys := by
+  rw [not_mem_keys_iff hp]
+  unfold PQ.getScore at h
+  split at h
+  · assumption
+  · rename_i p hpos
+    obtain ⟨e, he, hei⟩ := (hp _ _).mp hpos
+    rw [he] at h; simp at h
+
+/-! ### every step preserves the invariant and is allowed by the abstract queue -/
+
+theorem step_refines {q : PQ} (hinv : Inv q) (op : Op) :
+    Inv (step q op).1 ∧ AStep q.entries op (step q op).1.entries (step q op).2 := by
+  obtain ⟨ho, hp⟩ := (inv_iff q).mp hinv
+  cases op with
+  | push s item =>
+    simp only [step]
+    by_cases hc : q.contains item = true
+    · rw [if_pos hc]
+      unfold PQ.contains at hc
+      obtain ⟨idx, hpos⟩ := Option.isSome_iff_exists.mp hc
+      exact ⟨hinv, .pushQueued ((mem_keys_iff hp item).mpr ⟨idx, hpos⟩)⟩
+    · rw [if_neg hc]
+      have hpos : posGet q.pos item = none := by simpa [PQ.contains] using hc
+      show Inv (q.push s item) ∧ AStep q.entries _ (q.push s item).entries .unit
+      rw [push_eq]
+      have hsz : q.heap.size < (q.push0 s item).heap.size := by simp [PQ.push0]
+      refine ⟨(inv_iff _).mpr ⟨siftUp_heapOrd _ _ hsz (push0_upInv ho),
+        siftUp_posOK _ _ hsz (push0_posOK hp hpos)⟩, ?_⟩
+      exact .push ((not_mem_keys_iff hp item).mpr hpos)
+        ((siftUp_entries _ _).trans (push0_entries q s item))
+  | pop =>
+    simp only [step]
+    cases hpop : q.pop with
+    | none =>
+      have := (pop_none_iff q).mp hpop
+      have he : q.entries = [] := by
+        simp [PQ.entries, Array.eq_empty_of_size_eq_zero this]
+      simp only [he]
+      exact ⟨hinv, .popEmpty⟩
+    | some r =>
+      obtain ⟨e, q'⟩ := r
+      obtain ⟨ho', hp', hperm, hmax, _⟩ := pop_some hpop ho hp
+      exact ⟨(inv_iff _).mpr ⟨ho', hp'⟩, .pop hperm hmax⟩
+  | change item s =>
+    simp only [step]
+    cases hc : q.changeScore item s with
+    | none =>
+      exact ⟨hinv, .changeAbsent ((not_mem_keys_iff hp item).mpr (changeScore_none hp hc))⟩
+    | some q' =>
+      obtain ⟨ho', hp', _, old, R, h1, h2⟩ := changeScore_some ho hp hc
+      exact ⟨(inv_iff _).mpr ⟨ho', hp'⟩, .change h1 h2⟩
+  | get item =>
+    simp only [step]
+    refine ⟨hinv, ?_⟩
+    cases hg : q.getScore item with
+    | none => exact .getNone (getScore_none hp hg)
+    | some s => exact .getSome (getScore_some hp hg)
+  | len =>
+    simp only [step]
+    refine ⟨hinv, ?_⟩
+    have : q.len = q.entries.length := by simp [PQ.len, PQ.entries]
+    rw [this]; exact .len
+  | isEmpty =>
+    simp only [step]
+    refine ⟨hinv, ?_⟩
+    have : q.isEmpty = q.entries.isEmpty := by
+      rw [Bool.eq_iff_iff]
+      simp [PQ.isEmpty, PQ.entries]
+    rw [this]; exact .isEmpty
+
+theorem inv_empty : Inv ({} : PQ) := by
+  refine ⟨?_, ?_, ?_⟩
+  · intro i hi; simp at hi
+  · intro i hi; simp at hi
+  · intro item idx h; simp [posGet] at h
+
+theorem exec_inv {q : PQ} (hinv : Inv q) (ops : List Op) : Inv (exec q ops) := by
+  induction ops generalizing q with
+  | nil => exact hinv
+  | cons op ops ih => exact ih (step_refines hinv op).1
+
+theorem run_refines {q : PQ} (hinv : Inv q) (ops : List Op) : ARun q.entries ops (run q ops) := by
+  induction ops generalizing q with
+  | nil => exact .nil
+  | cons op ops ih =>
+    have := step_refines hinv op
+    simp only [run]
+    exact .cons this.2 (ih this.1)
+
 end WhVerif.C18
